@@ -8,6 +8,8 @@ STATE_POOL_I = ["S", "I", "R", "E", "A", "H"]           # includes the `I` that 
 # lower-case single letters: the names a hand-written s/i/r model uses, and the names Python code uses for loop variables
 # whole words, as in a hand-written model ('Sus', 'Inf', 'Rec'): a name is not a single character
 STATE_POOL_WORDS = ["Sus", "Inf", "Rec", "Exp", "Hosp", "Vac", "Dead", "Car"]
+# numbered names that share an alphabetic stem (two strains, two age groups)
+STATE_POOL_NUM = ["S1", "S2", "I1", "I2", "R1", "R2", "E1", "E2"]
 STATE_POOL_LC = ["s", "i", "r", "e", "x", "y", "z", "c", "j", "v"]
 PARAM_POOL_LC = ["a", "b", "k", "i", "j", "n", "p", "m"]
 PARAM_POOL = ["beta", "gamma", "mu", "kappa", "sigma", "alpha", "rho", "k1", "k2", "b0", "d0", "N",
@@ -123,7 +125,7 @@ def magnitude(draw, params, derived=(), symbolic=True, integer=False, hi=3):
 @st.composite
 def state_decl(draw, n, pool=None, allow_range=True, limits="none"):
     """n states as a declaration list.  limits: 'none' | 'mixed' (generate per-state limits)."""
-    pool = pool or draw(st.sampled_from([STATE_POOL, STATE_POOL, STATE_POOL_I, STATE_POOL_LC, STATE_POOL_WORDS]))
+    pool = pool or draw(st.sampled_from([STATE_POOL, STATE_POOL, STATE_POOL_I, STATE_POOL_LC, STATE_POOL_WORDS, STATE_POOL_NUM]))
     decl = []
     use_range = allow_range and n >= 2 and draw(st.integers(0, 4)) == 0
     names = []
@@ -377,7 +379,9 @@ def stochastic_setup(draw, m, x_hi=40, t_max=10.0, target_events=120, hard_event
     if bound > 0:
         horizon = min(horizon, hard_events / bound)
     horizon = max(sig(horizon * draw(st.sampled_from([0.3, 1.0, 1.0])), 3), 1e-3)
-    out = {"x0": x0, "theta": theta, "t0": t0, "horizon": horizon, "np_seed": draw(st.integers(0, 2 ** 32 - 1))}
+    out = {"x0": x0, "theta": theta, "t0": t0, "horizon": horizon, "np_seed": draw(st.integers(0, 2 ** 32 - 1)),
+           # whole-number populations handed over as ints, as floats (50.0) or as a float array
+           "x0_form": draw(st.sampled_from(["int", "int", "float", "float_array"]))}
     if slow != 1.0:
         out["clock"] = slow           # fixed leap sizes and literal rates added later have to be put on the same clock
     return out
